@@ -20,7 +20,7 @@ CHECKS = {
         'level_note': 'Trusts CPython asyncio Event/Task semantics on the custom loop and FIFO ready callbacks; '
                       'capacity <= 12 (16 thorough), <= 6 (8) jobs x <= 3 (4) rounds; no cancellation of waiters '
                       '(outside the quantifier).',
-        'scenarios': [{'module': 'worlds.prims.fifosem', 'quick': 150000, 'thorough': 3000000}],
+        'scenarios': [{'module': 'worlds.prims.fifosem', 'quick': 150000, 'thorough': 1000000}],
         'expected_probes': ['waiter_queued', 'waiter_queued_behind_head', 'fastpath_overtakes_granted_waiter',
                             'multi_grant_release', 'exit_by_exception'],
     },
@@ -47,7 +47,7 @@ CHECKS = {
                       '1/1024 s (float rounding for other lengths is not explored); <= 3 limiters, count <= 5, <= 8 actors x '
                       '<= 6 entries, <= 3 loop stalls of <= 2 windows per run. The limiter module is re-executed at the '
                       'start of every run so that no state of the class or module survives from one run to the next.',
-        'scenarios': [{'module': 'worlds.prims.ratelimit', 'quick': 100000, 'thorough': 2000000}],
+        'scenarios': [{'module': 'worlds.prims.ratelimit', 'quick': 100000, 'thorough': 700000}],
         'expected_probes': ['limiter_blocked', 'several_blocked', 'admitted_at_exact_expiry',
                             'later_arrival_admitted_first', 'window_full_at_admission', 'body_raised',
                             'cancel_blocked_in_aenter', 'cancel_in_body', 'stall_while_entrant_blocked',
@@ -73,7 +73,7 @@ CHECKS = {
         'level_note': 'Trusts CPython asyncio Task/Future cancellation semantics on the custom loop; prometheus is a '
                       'no-op fake whose time(metric, fut) awaits fut like the real one; num_slots <= 4, <= 6 keys, '
                       '<= 8 actors x <= 7 lookups, lifetimes are even multiples of 1/1024 s.',
-        'scenarios': [{'module': 'worlds.prims.tlcache', 'quick': 60000, 'thorough': 1600000}],
+        'scenarios': [{'module': 'worlds.prims.tlcache', 'quick': 60000, 'thorough': 450000}],
         'expected_probes': ['hit', 'joined_inflight_load', 'load_failed', 'joined_load_failed', 'eviction',
                             'expired_entry_reloaded', 'probe_pass_full', 'cancel_first_looker',
                             'cancel_first_looker_with_joiners', 'cancel_joiner', 'hit_one_tick_before_expiry'],
